@@ -100,6 +100,52 @@ func genC13(r *Rng) *Case {
 	return &Case{Prop: "C13", Check: "shape", Op: op}
 }
 
+// enumShapes: the full grid of key x signature lengths for the two
+// verifiers, and of key / seed / scalar / point lengths for the other
+// functions named by the property.
+func enumShapes() []*Case {
+	var out []*Case
+	seed := uint64(0xC13)
+	add := func(op *Op) {
+		seed++
+		op.Seed = mix64(seed)
+		out = append(out, &Case{Prop: "C13", Check: "shape", Op: op})
+	}
+	for _, fn := range []string{"Verify", "VerifyOpts"} {
+		for _, kl := range keyLens {
+			for _, sl := range sigLens {
+				for _, zip := range []bool{false, true} {
+					if fn == "Verify" && zip {
+						continue
+					}
+					add(&Op{Fn: fn, KL: lenCode(kl), SL: lenCode(sl), Opt: Opt{Zip: zip}, E: &Entry{K: "ok", ML: 5}})
+				}
+			}
+		}
+	}
+	for _, kl := range keyLens {
+		add(&Op{Fn: "Sign", KL: lenCode(kl), ML: 3})
+		add(&Op{Fn: "PrivSign", KL: lenCode(kl), ML: 3, Rd: &DevPlan{Trip: true}})
+		add(&Op{Fn: "PrivSign", KL: lenCode(kl), ML: 64, Opt: Opt{Hash: 1}, Rd: &DevPlan{Trip: true}})
+		add(&Op{Fn: "NewKeyFromSeed", KL: lenCode(kl)})
+		for _, pl := range keyLens {
+			add(&Op{Fn: "X25519", KL: lenCode(kl), Pt: 4, SL: lenCode(pl)})
+		}
+		for pt := 0; pt < 6; pt++ {
+			add(&Op{Fn: "X25519", KL: lenCode(kl), Pt: pt})
+		}
+	}
+	for h := 0; h <= 4; h++ {
+		for _, ctx := range []int{0, 1, 255, 256, 300} {
+			for _, ml := range []int{0, 63, 64, 65} {
+				add(&Op{Fn: "VerifyOpts", Opt: Opt{Hash: h, Ctx: ctx}, E: &Entry{K: "ok", ML: ml}, Alias: 0})
+				add(&Op{Fn: "PrivSign", Opt: Opt{Hash: h, Ctx: ctx}, ML: ml, Alias: 9, Rd: &DevPlan{Trip: true}})
+			}
+		}
+	}
+	return out
+}
+
 // panicAllowed is the documentation table of C13: where a panic is a
 // documented outcome. Only the "only-if" direction is enforced.
 func panicAllowed(p *Prepared) (bool, string) {
